@@ -783,3 +783,8 @@ def impl_docs(texts, funcs, procs=1):
 def short(s, n=120):
     s = repr(s)
     return s if len(s) <= n else s[:n] + '...'
+
+
+# a non-terminating implementation call must not block the check (see common.limited)
+import common as _common  # noqa: E402
+_common.limit_impl(globals(), ['impl_events', 'impl_split', 'impl_match', 'impl_outward', 'impl_inward', 'impl_section', 'impl_select'])
